@@ -233,7 +233,8 @@ def evaluate(case):
 def rand_case(rng):
     def obj(u, frame, lab=None):
         return dict(label=lab or rng.choice(["car", "car", "pedestrian", "bicycle"]), x=round(rng.uniform(-12, 12), 2), y=round(rng.uniform(-12, 12), 2),
-                    yaw=round(rng.uniform(-3.1, 3.1), 2), score=round(rng.uniform(0.1, 1.0), 2), uuid=str(u), frame=frame, size=(1.0, 2.0, 1.0))
+                    yaw=(round(rng.uniform(-3.1, 3.1), 2) if rng.random() < 0.7 else rng.choice([3.1, -3.1, 3.05, -2.95])),   # headings next to +-pi: the error of a pair wraps
+                    score=round(rng.uniform(0.1, 1.0), 2), uuid=str(u), frame=frame, size=(1.0, 2.0, 1.0))
     scenes = []
     use_map = rng.random() < 0.5
     for _ in range(rng.choice([1, 1, 2])):
